@@ -3,7 +3,8 @@ UNITS = [
     # the harness #includes asmjit/core/jitallocator.cpp (file-local classes); VirtMem and pthread_mutex_* are stubbed in jit_env.h
     Unit('block1', harness=['h_block1.cpp'], repo_units=[], extra_c=['cbmc_mem.c']),
     Unit('world2', harness=['h_world2.cpp'], repo_units=[], extra_c=['cbmc_mem.c'], defines=['JENV_POOLS=3', 'JENV_NEW_BLOCK_WORDS=8']),
-    Unit('fill', harness=['h_fill.cpp'], repo_units=[], extra_c=['cbmc_mem.c'], defines=['JENV_ARENA_BYTES=4096']),
+    Unit('fill', harness=['h_fill.cpp'], repo_units=[], extra_c=['cbmc_mem.c'], defines=['JENV_CBMC_ARENA_BYTES=256']),
+    Unit('reset', harness=['h_reset.cpp'], repo_units=[], extra_c=['cbmc_mem.c'], defines=['JENV_CBMC_ARENA_BYTES=4096']),
     Unit('bits', harness=['h_bits.cpp'], repo_units=[], extra_c=['cbmc_mem.c']),
     Unit('gen', harness=['h_gen.cpp'], repo_units=[], extra_c=['cbmc_mem.c']),
 ]
@@ -39,11 +40,16 @@ HARNESSES = [
     Harness('world2', 'h_second_block', unwind=10, unwindset=MEM, bounds='pool with one full block of 64 granules, 4 boundary sizes', mem_gb=6),
     Harness('world2', 'h_release_2b', unwind=6, unwindset=MEM, bounds='2 blocks of 64 granules in any states of I, any list order / tree shape / cursor', mem_gb=6),
     Harness('world2', 'h_release_2b_imm', unwind=6, unwindset=MEM, bounds='same, immediate release', mem_gb=6),
-    Harness('fill', 'h_fill_release', unwind=6, unwindset=FILL, bounds='1 block of 64 granules, any state of I around a span of 1..2 granules at granule P/31/61/62, any pattern, any byte of the mapping', mem_gb=6),
+    Harness('fill', 'h_fill_release', unwind=6, unwindset=FILL, bounds='1 block of 64 granules, any state of I, spans of 1..2 granules inside the first 4 granules, any pattern, any byte of those 256', mem_gb=6),
     Harness('fill', 'h_fill_release_dual', unwind=6, unwindset=FILL, bounds='same, dual mapping', mem_gb=6, tiers=('thorough',)),
     Harness('fill', 'h_fill_shrink', unwind=6, unwindset=FILL, bounds='same, shrink keeping 1..2 granules and freeing 0..2', mem_gb=6),
-    Harness('fill', 'h_write', unwind=6, unwindset=MEM.replace('memcpy.0:10', 'memcpy.0:18'), bounds='span of 1..2 granules, 8 boundary offsets, any size, any source byte', mem_gb=6),
-    Harness('fill', 'h_write_fn', unwind=6, unwindset=FILL, bounds='span of 1..3 granules truncated to 1..256 bytes by the write function', mem_gb=6),
+    Harness('fill', 'h_write', unwind=6, unwindset=MEM.replace('memcpy.0:10', 'memcpy.0:18'), bounds='span of 1..2 granules inside the first 4 granules, any offset, any size, any source byte', mem_gb=6),
+    Harness('fill', 'h_write_fn', unwind=6, unwindset=FILL, bounds='span of 1..3 granules inside the first 4 granules, truncated to 1..256 bytes by the write function', mem_gb=6),
+    Harness('reset', 'h_reset_hard', unwind=6, unwindset=MEM, bounds='1..2 blocks of 64 granules in any states of I, any list order / tree shape', mem_gb=6),
+    Harness('reset', 'h_reset_kf_C09G', unwind=6, unwindset=MEM, bounds='same', mem_gb=6, known='C09G'),
+    Harness('reset', 'h_reset_soft', unwind=6, unwindset=MEM, bounds='same, followed by one alloc of 1..256 bytes', mem_gb=6),
+    Harness('reset', 'h_reset_soft_kf_C09E', unwind=6, unwindset=MEM, bounds='same, region of C09E', mem_gb=6, known='C09E'),
+    Harness('reset', 'h_reset_fill_kf_C09D', unwind=6, unwindset=FILL.replace(':50', ':1100'), bounds='concrete block with two live spans, fill enabled, any pattern, any byte of the first 8 granules', mem_gb=6, known='C09D'),
     Harness('bits', 'h_bv_fill_clear', unwind=5, unwindset=MEM, bounds='3 words, every index/count', mem_gb=4),
     Harness('bits', 'h_bv_bit', unwind=5, unwindset=MEM, bounds='3 words, every index', mem_gb=4),
     Harness('bits', 'h_bv_index_of', unwind=5, unwindset=MEM, bounds='3 words, every start', mem_gb=4),
